@@ -64,7 +64,12 @@ def case(world):
     # root-cause marker for known finding F08: the penalty handed to a trial step (or held by
     # the live penalty strategy) has overflowed to a non-finite value
     ps_rho = getattr(getattr(ex.solver, "penalty_strategy", None), "rho", 1.0)
-    ctx["rho_overflow"] = bool(any(not np.isfinite(t.rho) for t in ex.trials) or not np.isfinite(ps_rho))
+    # (non-finite, or so large - beyond 1e150, i.e. more than 150 consecutive tenfold raises - that 1/(1 + lambda rho)
+    # underflows: the same run-away, caught one step earlier)
+    def _runaway(r):
+        return (not np.isfinite(r)) or abs(r) > 1e150
+
+    ctx["rho_overflow"] = bool(any(_runaway(t.rho) for t in ex.trials) or _runaway(ps_rho))
     if oc.startswith("crash:"):
         viol.append(V(ID, "internal-crash", "solve() died with %s in %s: %s" % (ex.exc_type, ex.exc_func, (ex.exc_msg or "")[:120]), None, dict(ctx, chain=list(ex.exc_chain)), sig_extra="%s@%s" % (ex.exc_type, ex.exc_func)))
     elif ex.result is not None:
